@@ -3,6 +3,7 @@ package main
 import (
 	"fmt"
 	"math/rand"
+	"os"
 	"sort"
 	"strings"
 	"time"
@@ -87,6 +88,9 @@ func execute(sc Scenario, prefix []int, rng *rand.Rand) *RunResult {
 	for i := range threads {
 		if p := vs.PanicOf(i); p != nil {
 			res.Panics = append(res.Panics, fmt.Sprint(p))
+			if os.Getenv("VERIF_DEBUG") != "" {
+				fmt.Fprintln(os.Stderr, "PANIC in goroutine", i, p, vs.PanicStackOf(i))
+			}
 		}
 	}
 	vs.Stop()
